@@ -45,3 +45,38 @@ ENTRY(h_c03){
     for(long p = 0; p < NPART; ++p) for(int k = 0; k < NRHS; ++k){ rok = rok & (gRA.rhs[p][k] == gRB.rhs[p][k]); irsym_observe(gRB.rhs[p][k]); }
     irsym_assert(mok, O_MULTIPOLE); irsym_assert(lok, O_LOCAL); irsym_assert(rok, O_RHS);
 }
+
+// C18 under the OpenMP executor: per-worker counter kernels, merged as documented, equal the sequential executor's counters
+#include "kernels/counterkernels/tbfinteractioncounter.hpp"
+extern "C" void irsym_omp_worker_local(const void* ptr, long bytes);
+using CKernel = TbfInteractionCounter<Kernel>;
+using CAlgoSeq = TbfAlgorithm<Real, CKernel, Idx>;
+using CAlgoOmp = TbfOpenmpAlgorithm<Real, CKernel, Idx>;
+enum AidOC { OC_COUNTERS = 610, OC_RESULTS };
+ENTRY(h_c18_omp){
+    if(a0 < 0) a0 = 1 + irsym_choose(-a0);
+    if(a1 < 0) a1 = irsym_choose(2);
+    const Cfg cfg = makeCfg();
+    choosePositions(cfg, /*symmetric=*/true);
+    const long upper = a3 < 0 ? TbfDefaultLastLevel : a3;
+    typename CKernel::ReduceType ref;
+    { Tree t(cfg, gP.pos, a0, a1 != 0); gReg.scan(t); gK = KFlags(); CAlgoSeq algo(cfg, upper); algo.execute(t); gRA.capture(t);
+      algo.applyToAllKernels([&](const auto& k){ ref = CKernel::ReduceType::Reduce(ref, k.getReduceData()); }); }
+    Tree tree(cfg, gP.pos, a0, a1 != 0); gReg.scan(tree); gK = KFlags();
+    typename CKernel::ReduceType acc;
+    {
+        CAlgoOmp algo(cfg, upper);
+        const unsigned char* lo = nullptr; const unsigned char* hi = nullptr;
+        algo.applyToAllKernels([&](const auto& k){ const unsigned char* p = reinterpret_cast<const unsigned char*>(&k); if(!lo || p < lo) lo = p; if(!hi || p + sizeof(k) > hi) hi = p + sizeof(k); });
+        irsym_omp_worker_local(lo, hi - lo);
+        irsym_omp_mode(1);
+        algo.execute(tree);
+        irsym_omp_mode(0);
+        algo.applyToAllKernels([&](const auto& k){ acc = CKernel::ReduceType::Reduce(acc, k.getReduceData()); });
+    }
+    gRB.capture(tree);
+    bool rok = true; for(long p = 0; p < NPART; ++p) rok = rok & (gRA.rhs[p][0] == gRB.rhs[p][0]);
+    irsym_assert(rok, OC_RESULTS);
+    irsym_assert(acc.P2M == ref.P2M && acc.M2M == ref.M2M && acc.M2L == ref.M2L && acc.L2L == ref.L2L && acc.L2P == ref.L2P && acc.P2P == ref.P2P && acc.P2PInner == ref.P2PInner, OC_COUNTERS);
+    irsym_observe(acc.M2L); irsym_observe(acc.P2P);
+}
